@@ -30,6 +30,7 @@ var checks = map[string]func(tier string){
 	"C09": sworld.RunC09,
 	"C11": sworld.RunC11,
 	"C12": sworld.RunC12,
+	"C10": fworld.RunC10,
 	"C13": fworld.RunC13,
 	"C14": c14.Run,
 	"C15": pworld.Run,
